@@ -1,6 +1,6 @@
 """Properties whose check is not a plain model-vs-implementation stream (C09, C17)."""
 import os, random, re, subprocess
-import gen, runner, props
+import gen, runner, props, facts
 from gen import Profile
 
 K_TYPES = {0, 2, 4}
@@ -111,8 +111,9 @@ def c17_run(prop, cfg, seed, tier, workdir):
     for sc in scenarios:
         nm = sc[0].split()[1]
         ti = runner.canonicalise(sc, impl[nm]); tm = runner.canonicalise(sc, model[nm])
-        d = runner.first_diff(ti, tm)
-        if d is not None:
+        # against the model every fact counts (as upstream), but orders no property fixes are normalised (tools/facts.py)
+        v, d = facts.compare(prop, sc, ti, tm)
+        if v != "same":
             mismatches.append((sc, d))
         if impl[nm] != impl2[nm] and not violations:
             violations.append(("nondeterministic-" + nm, "# two runs of the real crate on the same scenario differ\n" + "\n".join(sc) + "\n"))
